@@ -16,6 +16,7 @@ type progGen struct {
 	ints    []string // global int variables
 	vars    []string // those declared with var (may be declared again)
 	consts  []string
+	named   bool // the named type Amt is currently float64
 	strs    []string
 	slices  []string // []int
 	maps    []string // map[string]int
@@ -199,7 +200,42 @@ func (g *progGen) scopedStmt() string {
 // stmt returns one top-level statement (one line).
 func (g *progGen) stmt() string {
 	for {
-		switch g.r.Intn(32) {
+		switch g.r.Intn(37) {
+		case 32:
+			// a script function named like a builtin; later statements call it by that name
+			if !g.obs || g.imports["#print"] {
+				continue
+			}
+			g.imports["#print"] = true
+			return fmt.Sprintf("func print(a int) { host.Obs(%q, a) }", g.id("myprint"))
+		case 33:
+			if !g.imports["#print"] {
+				continue
+			}
+			return "print(" + g.intExpr(1) + ")"
+		case 34:
+			// a method with a function-local named type that shares its name with a global
+			if !g.structs || len(g.vars) == 0 || g.imports["#localtype"] {
+				continue
+			}
+			g.imports["#localtype"] = true
+			return fmt.Sprintf("func (p *P) Scaled(n int) int { type %s int; var w %s = 2; return (p.A + n * int(w)) %% 1000 }", g.vars[0], g.vars[0])
+		case 35:
+			// a named non-struct type, (re)declared with another underlying type between uses
+			if g.imports["#named"] {
+				g.named = !g.named
+			}
+			g.imports["#named"] = true
+			if g.named {
+				return "type Amt float64"
+			}
+			return "type Amt int"
+		case 36:
+			if !g.imports["#named"] || !g.obs {
+				continue
+			}
+			v := g.id("amt")
+			return fmt.Sprintf("var %s Amt = %d; host.Obs(%q, %s / 2)", v, 3+2*g.r.Intn(5), g.id("amt"), v)
 		case 27:
 			// declaring a constant again, with another value (REPL semantics: the later one holds)
 			if len(g.consts) == 0 {
